@@ -103,9 +103,14 @@ extern ssize_t mpt_connection_push(MPT_STRUCT(connection) *con, size_t len, cons
 			mpt_outdata_push(&con->out, 1, 0);
 		}
 	}
+	/* message completed, id belongs to this message only */
+	else if (!len) {
+		con->cid = 0;
+	}
 	if (ret < 0 && con->cid) {
 		/* clear pending reply */
 		deregisterCommand(&con->_wait, con->cid);
+		con->cid = 0;
 	}
 	return ret;
 }
